@@ -1057,7 +1057,7 @@ fn reorder_empty<F: BoolExt>(out: &mut TraceOut, rng: &mut Rng, thorough: bool, 
             }
         }
     }
-    let mut s: Session<F> = Session::new_tagged(out, 4096, 64, 1, "live-reorder");
+    let mut s: Session<F> = Session::new(out, 4096, 64, 1);
     s.add_vars(3);
     if build_all3(&mut s, false).is_some() {
         s.snap();
